@@ -35,14 +35,15 @@ ENTRY = ["pfx_table_add", "pfx_table_remove", "pfx_table_src_remove", "pfx_table
          "pfx_table_for_each_ipv4_record", "pfx_table_for_each_ipv6_record", "pfx_table_copy_except_socket",
          "pfx_table_swap", "pfx_table_notify_diff",
          "spki_table_add_entry", "spki_table_remove_entry", "spki_table_src_remove", "spki_table_get_all",
-         "spki_table_search_by_ski", "spki_table_copy_except_socket", "spki_table_swap", "spki_table_notify_diff"]
+         "spki_table_search_by_ski", "spki_table_copy_except_socket", "spki_table_swap", "spki_table_notify_diff",
+         "spki_table_free", "spki_table_free_without_notify"]
 EXEMPT = {
     "pfx_table_init": "construction: the table is not yet shared",
     "pfx_table_free": "destruction is exclusive by contract (it also destroys the lock)",
     "pfx_table_free_without_notify": "destruction is exclusive by contract",
     "spki_table_init": "construction: the table is not yet shared",
-    "spki_table_free": "destruction is exclusive by contract",
-    "spki_table_free_without_notify": "destruction is exclusive by contract",
+    # spki_table_free / spki_table_free_without_notify are NOT exempt: they empty the table under its write lock, which is what makes
+    # a free wait for a lookup that is still walking the table
     "spki_table_notify_diff": "unlocked read-only walk of the live list on the single writer thread of the property's "
                               "quantifier (readers only read); recorded as a hazard for multi-socket groups",
 }
